@@ -56,10 +56,24 @@ def preserving_table():
     return "\n".join(out)
 
 
+def rules_table():
+    rows = ["| id | level | obligations | rules applied on the current tree (obligations per rule) |", "|---|---|---|---|"]
+    for i in range(1, 21):
+        pid = "C%02d" % i
+        p = os.path.join(HERE, "evidence", pid + ".json")
+        if not os.path.exists(p):
+            continue
+        e = json.load(open(p))
+        c = e["coverage"]
+        ra = c.get("rules_applied", {})
+        rows.append("| %s | %s | %d | %s |" % (pid, e["level"], c["obligations"], ", ".join("%s %d" % kv for kv in sorted(ra.items(), key=lambda kv: -kv[1]))))
+    return "\n".join(rows)
+
+
 def main():
     path = os.path.join(HERE, "DESIGN.md")
     s = open(path).read()
-    for name, fn in (("seeded", seeded_table), ("preserving", preserving_table)):
+    for name, fn in (("seeded", seeded_table), ("preserving", preserving_table), ("rules", rules_table)):
         b, e = "<!-- GEN:%s:BEGIN -->" % name, "<!-- GEN:%s:END -->" % name
         if b in s and e in s:
             i, j = s.index(b) + len(b), s.index(e)
